@@ -30,10 +30,10 @@ LoopCases ==
     \cup {Case("loop", "", BoolFlags(mf) \o <<P(Progs[p])>>, <<>>, k) : mf \in ModeFlagSeqs, p \in LoopProgs, k \in {"B", "U"}}
     \* all three failure classes in one run, every order (also when MaxInputs is small)
     \cup {Case("loop", "", BoolFlags(mf) \o <<P(Progs[p])>> \o Files(ks), Idx(Len(mf) + 1, Len(ks)), "A")
-        : mf \in {<<>>, <<"slurp">>}, p \in {"failB", "emitfailB", "failnullB"},
+        : mf \in {<<>>, <<"slurp">>}, p \in {"failB", "emitfailB", "failnullB", "tryB", "defB"},
           ks \in {<<a, b, c>> : a \in {"B", "U", "M", "A"}, b \in {"B", "U", "M", "A"}, c \in {"B", "U", "M", "A"}} \cup {<<"D", "B", "A", "U">>, <<"A", "U", "B", "M">>}}
     \cup {Case("loop", "", <<P(Progs[p])>> \o Files(ks), Idx(1, Len(ks)), "A")
-        : p \in {"dup", "none", "emitfailB", "failnullB", "wrap"}, ks \in Seqs(LoopKinds, 2) \cup {<<"B", "M", "A", "U">>, <<"A", "B", "B", "A">>}}
+        : p \in {"dup", "none", "emitfailB", "failnullB", "wrap", "tryB", "optB", "labelB", "defB"}, ks \in Seqs(LoopKinds, 2) \cup {<<"B", "M", "A", "U">>, <<"A", "B", "B", "A">>}}
 
 \* ---- format family: -r -j -c --raw-output0 on known JSON -------------------------
 DispSets == SUBSET {"raw_string", "join_output", "compact", "null_output"}
